@@ -104,9 +104,34 @@ func checkBCE(c *an.Ctx, inFuncs map[string]bool, what string) int {
 			if vf := bceVerify[key]; vf != nil {
 				in := c.P.InstrAt(s.Pos)
 				good := in != nil && vf(in)
+				if !good && in != nil {
+					// the recorded justification is not found in this shape any more: try to derive the bound afresh
+					word := 64
+					if is32 {
+						word = 32
+					}
+					if proved, how := an.ProveInBounds(in, word); proved {
+						c.Ok(what+" | reviewed residual still justified: "+key, pos, "re-derived: "+how)
+						continue
+					}
+				}
 				c.Check(good, what+" | reviewed residual still justified: "+key, pos, why,
 					"the compiler cannot prove this index/slice and the guard that justified the reviewed exception is no longer found ("+why+")")
 				continue
+			}
+		}
+		if !ok {
+			// not a reviewed residual: the compiler's prover is incomplete (merged values, values compared in another
+			// integer type), so try the dominating comparisons as difference constraints before reporting
+			word := 64
+			if is32 {
+				word = 32
+			}
+			if in := c.P.InstrAt(s.Pos); in != nil {
+				if proved, how := an.ProveInBounds(in, word); proved {
+					c.Ok(what+" | unproved "+s.Kind+" "+key, pos, "not proved by the compiler; "+how)
+					continue
+				}
 			}
 		}
 		c.Check(ok, what+" | unproved "+s.Kind+" "+key, pos, "reviewed residual: "+why,
@@ -146,7 +171,7 @@ func c08r1(c *an.Ctx) {
 			key := fmt.Sprintf("%s | loop %d is bounded", name, i)
 			pos := c.P.InstrPos(l.Header.Instrs[0])
 			switch l.Class {
-			case "counted", "shrinking":
+			case "counted", "shrinking", "len-bounded", "range", "consuming":
 				c.Ok(key, pos, l.Detail)
 			default:
 				if name == "SplitN" && splitNConsumes(c, fn, l) {
@@ -159,12 +184,9 @@ func c08r1(c *an.Ctx) {
 	}
 	// ReadVarint: at most 10 bytes
 	rv := c.Fn("drpcwire", "ReadVarint")
-	for _, l := range an.Loops(rv) {
-		if l.Class == "counted" {
-			ok := strings.Contains(l.Detail, "at most 10 iterations")
-			c.Check(ok, "ReadVarint | consumes at most 10 bytes", c.P.Pos(rv.Pos()), l.Detail, "the varint decoder's loop bound changed ("+l.Detail+"): 64-bit values need exactly ten 7-bit groups")
-		}
-	}
+	mb := varintConsts(rv)["maxbytes"]
+	acc := varintConsts(rv)["accepts"]
+	c.Check(mb == 10 && acc == 10, "ReadVarint | consumes at most 10 bytes", c.P.Pos(rv.Pos()), fmt.Sprint(mb, acc), fmt.Sprintf("the varint decoder accepts encodings of up to %d bytes and answers \"too long\" once %d bytes are present: 64-bit values need exactly ten 7-bit groups, and ten continuation bytes are not a prefix of any varint", acc, mb))
 }
 
 func splitNConsumes(c *an.Ctx, fn *ssa.Function, l *an.Loop) bool {
@@ -330,7 +352,7 @@ func c08r2(c *an.Ctx) {
 	c.Check(encC["shift"] == 7 && decC["step"] == 7, "varint | 7-bit groups on both sides", c.P.Pos(av.Pos()), "", fmt.Sprintf("group size: encoder >>%d, decoder step %d", encC["shift"], decC["step"]))
 	c.Check(encC["mask"] == 127 && decC["mask"] == 127, "varint | payload mask 0x7f on both sides", c.P.Pos(av.Pos()), "", fmt.Sprintf("masks: encoder %#x decoder %#x", encC["mask"], decC["mask"]))
 	c.Check(encC["cont"] == 128 && decC["cont"] == 128 && encC["more"] == 128, "varint | continuation bit 0x80 on both sides", c.P.Pos(av.Pos()), "", fmt.Sprintf("continuation: encoder sets %#x while x >= %#x, decoder stops on val < %#x", encC["cont"], encC["more"], decC["cont"]))
-	c.Check(decC["bound"] == 64, "varint | decoder covers 64 bits", c.P.Pos(rv.Pos()), "", fmt.Sprintf("decoder shift bound %d", decC["bound"]))
+	c.Check(decC["accepts"]*decC["step"] >= 64 && (decC["accepts"]-1)*decC["step"] < 64, "varint | decoder covers 64 bits", c.P.Pos(rv.Pos()), "", fmt.Sprintf("decoder reads at most %d groups of %d bits", decC["maxbytes"], decC["step"]))
 	c.Check(decC["le"] == 1, "varint | decoder accumulates little-endian (val&mask)<<shift", c.P.Pos(rv.Pos()), "", "decoder does not OR (val&0x7f)<<shift into the result")
 }
 
@@ -354,6 +376,12 @@ func varintConsts(fn *ssa.Function) map[string]int64 {
 	if delegated {
 		return map[string]int64{"shift": 7, "mask": 127, "cont": 128, "more": 128}
 	}
+	type idxTest struct {
+		at   *ssa.BinOp
+		iter int64
+	}
+	var idxTests []idxTest
+	var contAt *ssa.BasicBlock
 	an.Instrs(fn, func(in ssa.Instruction) {
 		b, ok := in.(*ssa.BinOp)
 		if !ok {
@@ -361,11 +389,31 @@ func varintConsts(fn *ssa.Function) map[string]int64 {
 		}
 		k, isC := an.ConstInt(b.Y)
 		if !isC {
-			// (val & 127) << shift
+			// (val & 127) << shift, the shift being an induction variable (shift += 7) or 7 * <index of the byte>
 			if b.Op == token.SHL {
-				if inner, ok := b.X.(*ssa.BinOp); ok && inner.Op == token.AND {
+				x := b.X
+				if cv, ok := x.(*ssa.Convert); ok {
+					x = cv.X
+				}
+				if inner, ok := x.(*ssa.BinOp); ok && inner.Op == token.AND {
 					if _, ok := b.Y.(*ssa.Phi); ok {
 						out["le"] = 1
+					}
+					if mul, ok := b.Y.(*ssa.BinOp); ok && mul.Op == token.MUL {
+						kk, isK := an.ConstInt(mul.X)
+						idx := mul.Y
+						if !isK {
+							kk, isK = an.ConstInt(mul.Y)
+							idx = mul.X
+						}
+						if first, isI := indexOfLoop(idx); isK && isI && first == 0 {
+							out["le"] = 1
+							out["step"] = kk
+							out["indexed"] = 1
+						}
+					}
+					if m, isM := an.ConstInt(inner.Y); isM {
+						out["mask"] = m
 					}
 				}
 			}
@@ -378,30 +426,108 @@ func varintConsts(fn *ssa.Function) map[string]int64 {
 			out["mask"] = k
 		case token.OR:
 			out["cont"] = k
-		case token.GEQ:
-			out["more"] = k
+		case token.GEQ, token.EQL:
+			// index form: the byte count (index + 1) is compared with the maximum
+			if first, isI := indexOfLoop(b.X); isI {
+				// the test fires in iteration number k-first (0-based), which has that many bytes before it and one in hand
+				idxTests = append(idxTests, idxTest{b, k - first})
+				return
+			}
+			if b.Op == token.GEQ {
+				out["more"] = k
+			}
 		case token.LSS:
 			if _, isPhi := b.X.(*ssa.Phi); isPhi {
 				out["bound"] = k
 			} else {
 				out["cont"] = k
+				contAt = b.Block()
 			}
 		case token.ADD:
 			if _, isPhi := b.X.(*ssa.Phi); isPhi {
-				out["step"] = k
+				out["addstep"] = k
 			}
 		}
 	})
+	if out["indexed"] == 0 && out["addstep"] != 0 {
+		out["step"] = out["addstep"]
+	}
+	delete(out, "addstep")
+	// index form: "too long" is declared in iteration n (0-based): n+1 bytes have to be present for that answer, and the
+	// longest accepted encoding has n+1 bytes when the terminator test of that iteration comes first, n otherwise
+	if len(idxTests) == 1 && contAt != nil {
+		t := idxTests[0]
+		out["maxbytes"] = t.iter + 1
+		if contAt != t.at.Block() && contAt.Dominates(t.at.Block()) {
+			out["accepts"] = t.iter + 1
+		} else {
+			out["accepts"] = t.iter
+		}
+	}
+	// shift form: the loop runs while shift < bound in steps: ceil(bound/step) bytes, every one of them tested for the terminator
+	if len(idxTests) == 0 && out["bound"] > 0 && out["step"] > 0 {
+		out["maxbytes"] = (out["bound"] + out["step"] - 1) / out["step"]
+		out["accepts"] = out["maxbytes"]
+	}
+	delete(out, "indexed")
+	delete(out, "bound")
 	return out
+}
+
+// indexOfLoop: v is (a conversion of) a loop counter plus a constant, the counter being phi [c0, phi+1]; first is the
+// value v has in the first iteration, so v - first is the 0-based number of the iteration.
+func indexOfLoop(v ssa.Value) (first int64, ok bool) {
+	off := int64(0)
+	for i := 0; i < 6; i++ {
+		switch x := v.(type) {
+		case *ssa.Convert:
+			v = x.X
+			continue
+		case *ssa.BinOp:
+			if x.Op == token.ADD {
+				if k, isK := an.ConstInt(x.Y); isK {
+					off += k
+					v = x.X
+					continue
+				}
+			}
+			return 0, false
+		case *ssa.Phi:
+			if len(x.Edges) != 2 {
+				return 0, false
+			}
+			c0, inc, n := int64(0), false, 0
+			for _, e := range x.Edges {
+				if b, isB := e.(*ssa.BinOp); isB && b.Op == token.ADD && b.X == ssa.Value(x) {
+					if k, isK := an.ConstInt(b.Y); isK && k == 1 {
+						inc = true
+						continue
+					}
+				}
+				if k, isK := an.ConstInt(e); isK {
+					c0 = k
+					n++
+				}
+			}
+			if !inc || n != 1 {
+				return 0, false
+			}
+			return c0 + off, true
+		}
+		return 0, false
+	}
+	return 0, false
 }
 
 func c08r3(c *an.Ctx) {
 	pf := c.Fn("drpcwire", "ParseFrame")
 	buf := pf.Params[0]
 	n := 0
-	for _, ret := range an.Returns(pf) {
+	res := func(v ssa.Value, at *ssa.BasicBlock) ssa.Value { return an.ResolveAt(v, at) }
+	for _, rc := range an.ReturnCases(pf) {
+		ret := rc.Ret
 		n++
-		okv := ret.Results[2]
+		okv := rc.Vals[2]
 		isOK := false
 		if cst, isC := okv.(*ssa.Const); isC && cst.Value != nil && cst.Value.String() == "true" {
 			isOK = true
@@ -409,40 +535,44 @@ func c08r3(c *an.Ctx) {
 		if !isOK {
 			// must not be able to return true: a constant false
 			cst, isC := okv.(*ssa.Const)
-			c.Check(isC && cst.Value.String() == "false", "ParseFrame | non-ok return has ok == false", c.At(ret), "", "cannot decide ok on this return")
-			c.Check(ret.Results[0] == ssa.Value(buf), "ParseFrame | non-ok return hands back its input unchanged", c.At(ret), "", "'need more data' / error consumes bytes: the caller would resume parsing in the middle of a frame")
+			c.Check(isC && cst.Value != nil && cst.Value.String() == "false", "ParseFrame | non-ok return has ok == false", c.At(ret), "", "cannot decide ok on this return")
+			c.Check(an.Resolve(rc.Vals[0]) == ssa.Value(buf), "ParseFrame | non-ok return hands back its input unchanged", c.At(ret), "", "'need more data' / error consumes bytes: the caller would resume parsing in the middle of a frame")
 			continue
 		}
-		// ok return: guarded by !(length > uint64(len(rem))) and err == nil for all varints; remainder and data are complementary
-		rem, okS := ret.Results[0].(*ssa.Slice)
+		// ok return: the remainder is x[length:] behind length <= uint64(len(x)) for the same x and length, and
+		// fr.Data is x[:length] -- wherever the cut is made (in place or in a helper that returns both halves)
+		rem, okS := res(rc.Vals[0], rc.At).(*ssa.Slice)
 		good := false
 		if okS && rem.Low != nil && rem.High == nil {
-			for _, g := range an.GuardsOf(ret.Block()) {
-				b, ok := g.Cond.(*ssa.BinOp)
+			base, low := an.Resolve(rem.X), an.Resolve(rem.Low)
+			guards := append(append([]an.Guard{}, rc.Guards...), an.GuardsOf(rem.Block())...)
+			for _, g := range guards {
+				cmp, ok := an.CmpOf(g)
 				if !ok {
 					continue
 				}
-				// length > uint64(len(x)) false, or length <= ... true
-				if (b.Op == token.GTR && !g.True || b.Op == token.LEQ && g.True) && b.X == rem.Low {
-					if conv, ok := b.Y.(*ssa.Convert); ok {
-						if call, ok := conv.X.(*ssa.Call); ok {
-							if bi, ok := call.Common().Value.(*ssa.Builtin); ok && bi.Name() == "len" && call.Common().Args[0] == rem.X {
-								good = true
-							}
-						}
+				if cmp.Is(token.LEQ, func(v ssa.Value) bool { return an.Resolve(v) == low }, func(v ssa.Value) bool {
+					cv, ok := an.Resolve(v).(*ssa.Convert)
+					if !ok {
+						return false
 					}
+					l := lenOperand(cv.X)
+					return l != nil && an.Resolve(l) == base
+				}) {
+					good = true
 				}
 			}
 		}
 		c.Check(good, "ParseFrame | ok return dominated by length <= len(rem) on the sliced value", c.At(ret), "", "the payload is sliced without the announced length being compared with the bytes available")
-		// Data = rem[:length] of the same base and bound
+		// Data = x[:length] of the same base and bound
 		dataOK := false
 		an.Instrs(pf, func(in ssa.Instruction) {
 			st, ok := in.(*ssa.Store)
 			if !ok || an.PathOf(st.Addr).Last() == nil || nameOf(an.PathOf(st.Addr).Last()) != "Data" {
 				return
 			}
-			if sl, ok := st.Val.(*ssa.Slice); ok && okS && sl.X == rem.X && sl.High == rem.Low && sl.Low == nil {
+			if sl, ok := res(st.Val, ret.Block()).(*ssa.Slice); ok && okS && sl.Low == nil && sl.High != nil &&
+				an.Resolve(sl.X) == an.Resolve(rem.X) && an.Resolve(sl.High) == an.Resolve(rem.Low) {
 				dataOK = true
 			}
 		})
